@@ -4,7 +4,9 @@
 #include <cstdint>
 #include <cstdio>
 #include <cstdlib>
+#include <cmath>
 #include <cstring>
+#include <limits>
 #include <string>
 
 namespace c16 {
@@ -211,6 +213,63 @@ inline auto is_nt(T v) -> bool
     if (e >= bias + static_cast<unsigned>(m)) { return true; } // no fraction bits
     if (mant <= 64 || mant >= ((static_cast<U>(1) << m) - 64)) { return true; } // within 64 ulp of a power of two
     return is_tie(v);
+}
+
+template <typename T>
+inline auto mag(T x) -> T
+{
+    using U = typename BitsOf<T>::type;
+    return from_bits<T>(static_cast<U>(bits(x) << 1) >> 1);
+}
+
+// ------------------------------------------------------------------ known-finding classes of the approximating functions
+// (consulted only when the corresponding tag arrives with --exclude; see the C16 report)
+double const INF = std::numeric_limits<double>::infinity();
+// Every one of them has the same root cause: at RUN time the function is gcem's compile-time approximation, which
+// treats |x| < epsilon as "indistinguishable from zero", loses the sign of zero and forms differences of nearly equal
+// exponentials / logarithms.  A class lists the arguments whose result is wrong by class (NaN/inf/zero/sign) or by
+// >= 1e-3 relative; the rest of the domain stays in the search with the bound measured there.
+inline auto eps_of(bool is32) -> double { return is32 ? 0x1p-23 : 0x1p-52; }
+inline bool negzero(double x) { return x == 0 && std::signbit(x); }
+inline bool cls_sqrt(double x, bool is32) { return negzero(x) || (x > 0 && x < eps_of(is32)); }
+inline bool cls_sinh(double x, bool is32) { return negzero(x) || (x != 0 && ::fabs(x) < (is32 ? 0x1p-13 : 0x1p-42)); }
+inline bool cls_atanh(double x, bool is32)
+{
+    double const a = ::fabs(x);
+    // near +-1: returns +-inf when 1 - |x| < epsilon, and log((1 + x) / (1 - x)) is log(< epsilon) = -inf for x close to -1
+    return negzero(x) || (x != 0 && a < (is32 ? 0x1p-13 : 0x1p-42)) || (a < 1 && 1 - a < 2.5 * eps_of(is32));
+}
+inline bool cls_erf(double x, bool is32) { return negzero(x) || (x != 0 && ::fabs(x) < eps_of(is32)); }
+inline bool cls_log1p(double x, bool is32) { return x > -1 && x + 1 < eps_of(is32); }
+inline bool cls_tgamma(double x, bool is32)
+{
+    if (negzero(x) || x == INF || x == -INF) { return true; } // -inf: unbounded recursion tgamma(x + 1) / x (stack overflow)
+    if (x > 0) { return x < (is32 ? 0x1p-14 : 0x1p-42); }
+    if (x < 0 && x != ::floor(x)) { return ::fabs(x) < eps_of(is32) || ::fabs(x - ::round(x)) < eps_of(is32) || x < -170; }
+    return false;
+}
+inline bool cls_lgamma(double x, bool is32)
+{
+    if (x == INF || x == 2) { return true; }
+    if (x > 0) { return x < (is32 ? 0x1p-17 : 0x1p-47); }
+    return x < 0 && x != ::floor(x) && x != -INF; // negative non-integers: +inf instead of log|gamma(x)|
+}
+
+// atan2(y, x) (gcem): every argument below epsilon counts as zero, zeros lose their sign, two infinities give NaN, and
+// gcem::atan() returns 0 for a quotient |y/x| below epsilon
+inline bool cls_atan2(double y, double x, bool is32)
+{
+    if (y != y || x != x) { return false; }
+    double const e = eps_of(is32), ay = ::fabs(y), ax = ::fabs(x);
+    return ay == INF || ax == INF || ay < e || ax < e || ay / ax < e;
+}
+// hypot = sqrt(x*x + y*y [+ z*z]) inherits the sqrt class (a sum of squares below epsilon gives 0)
+template <typename T>
+inline bool cls_hypot(T x, T y, T z)
+{
+    if (nan_b(x) || nan_b(y) || nan_b(z) || inf_b(x) || inf_b(y) || inf_b(z)) { return false; }
+    T const ss = x * x + y * y + z * z;
+    return ss < std::numeric_limits<T>::epsilon() && !(zero_b(x) && zero_b(y) && zero_b(z));
 }
 
 } // namespace c16
